@@ -32,6 +32,12 @@ open Pyxv Pyxv.Form Pyxv.Rows
 
 abbrev Dict := List (Str × Str)
 
+open Lean in
+/-- `k!"lit"`: a string literal as an explicit `List Char` literal (`"lit".toList` is expensive to reduce) -/
+macro:max "k!" s:str : term => do
+  let cs : Array (TSyntax `term) := (s.getString.toList.map fun c => (⟨(Syntax.mkCharLit c).raw⟩ : TSyntax `term)).toArray
+  `(([$cs,*] : List Char))
+
 /-- Python `d[k] = v` -/
 def dset : Dict → Str → Str → Dict
   | [], k, v => [(k, v)]
@@ -67,7 +73,7 @@ def parseOne (p : Str) : Option (Str × Str) :=
   match splitOnChar '=' p with
   | k :: v :: _ =>
     let key := strip (lowerAscii k)
-    some (key, if key = "label".toList || key = "value".toList then strip v else strip (lowerAscii v))
+    some (key, if key = (k!"label") || key = (k!"value") then strip v else strip (lowerAscii v))
   | _ => none        -- no `=` in the part
 
 def parseParts (raw : Str) : List Str :=
@@ -111,7 +117,7 @@ def floatLit (s : Str) : Bool :=
 def notNumber (s : Str) : Bool :=
   s.isEmpty || (isAscii s && s.any fun c =>
     !(isDigit c || c == '+' || c == '-' || c == '.' || c == '_' || c == ' ' ||
-      "einfatyx".toList.contains c || (9 ≤ c.toNat && c.toNat ≤ 13)))
+      (k!"einfatyx").contains c || (9 ≤ c.toNat && c.toNat ≤ 13)))
 
 /-- surely rejected by `int()`: as above, or a plain decimal literal with a point -/
 def notInt (s : Str) : Bool := notNumber s || (floatLit s && s.contains '.')
@@ -155,84 +161,87 @@ def dealias (t : Str) : Str :=
 
 /-- the row's `control` dict as `dealias_and_group_headers` builds it: `control::x` cells, column order -/
 def rowCtlCells (r : Cells) : Dict :=
-  r.filterMap fun kv => if startsWith kv.1 "control::".toList then some (kv.1.drop 9, kv.2) else none
+  r.filterMap fun kv => if startsWith kv.1 (k!"control::") then some (kv.1.drop 9, kv.2) else none
 
 def optCheck (o : Option Str) (f : Str → Except Fail Unit) : Except Fail Unit :=
   match o with
   | some v => f v
   | none => .ok ()
 
-def isGeo (t : Str) : Bool := t = "geopoint".toList || t = "geoshape".toList || t = "geotrace".toList
+def isGeo (t : Str) : Bool := t = (k!"geopoint") || t = (k!"geoshape") || t = (k!"geotrace")
 
 /-- may the `app` parameter become `intent`?  (appearance cell absent or `annotate`) -/
 def appApplies (r : Cells) : Bool :=
   match get r "control::appearance" with
   | none => true
-  | some a => a = "annotate".toList
+  | some a => a = (k!"annotate")
 
 /-- validation part of the parameter block of (dealiased, non-select) type `t` -/
 def validateParams (t : Str) (r : Cells) (ps : Dict) : Except Fail Unit :=
-  if t = "range".toList then do
+  if t = (k!"range") then do
     allowed ps ["start", "end", "step"]
     ps.forM fun kv => needFloat kv.2 "Range parameters must all be numbers"
-  else if t = "text".toList then do
+  else if t = (k!"text") then do
     allowed ps ["rows"]
-    optCheck (lookup "rows".toList ps) fun v => needInt v "Parameter rows must have an integer value"
-  else if t = "photo".toList then do
+    optCheck (lookup (k!"rows") ps) fun v => needInt v "Parameter rows must have an integer value"
+  else if t = (k!"photo") then do
     allowed ps ["max-pixels", "app"]
-    optCheck (lookup "max-pixels".toList ps) fun v => needInt v "Parameter max-pixels must have an integer value"
-    optCheck (lookup "app".toList ps) fun v =>
+    optCheck (lookup (k!"max-pixels") ps) fun v => needInt v "Parameter max-pixels must have an integer value"
+    optCheck (lookup (k!"app") ps) fun v =>
       if appApplies r && !packageOk v then .error (.err "invalid Android package name") else .ok ()
-  else if t = "audio".toList then do
+  else if t = (k!"audio") then do
     allowed ps ["quality"]
-    optCheck (lookup "quality".toList ps) fun v =>
+    optCheck (lookup (k!"quality") ps) fun v =>
       if [const "AUDIO_QUALITY_VOICE_ONLY", const "AUDIO_QUALITY_LOW", const "AUDIO_QUALITY_NORMAL",
           const "AUDIO_QUALITY_EXTERNAL"].contains v then .ok () else .error (.err "Invalid value for quality")
-  else if t = "background-audio".toList then do
+  else if t = (k!"background-audio") then do
     allowed ps ["quality"]
-    optCheck (lookup "quality".toList ps) fun v =>
+    optCheck (lookup (k!"quality") ps) fun v =>
       if [const "AUDIO_QUALITY_VOICE_ONLY", const "AUDIO_QUALITY_LOW", const "AUDIO_QUALITY_NORMAL"].contains v
       then .ok () else .error (.err "Invalid value for quality")
   else if isGeo t then do
-    allowed ps (if t = "geopoint".toList then ["allow-mock-accuracy", "capture-accuracy", "warning-accuracy"]
+    allowed ps (if t = (k!"geopoint") then ["allow-mock-accuracy", "capture-accuracy", "warning-accuracy"]
                 else ["allow-mock-accuracy"])
-    optCheck (lookup "allow-mock-accuracy".toList ps) fun v =>
-      if v = "true".toList || v = "false".toList then .ok () else .error (.err "Invalid value for allow-mock-accuracy")
-    optCheck (lookup "capture-accuracy".toList ps) fun v => needFloat v "capture-accuracy must be numeric"
-    optCheck (lookup "warning-accuracy".toList ps) fun v => needFloat v "warning-accuracy must be numeric"
+    optCheck (lookup (k!"allow-mock-accuracy") ps) fun v =>
+      if v = (k!"true") || v = (k!"false") then .ok () else .error (.err "Invalid value for allow-mock-accuracy")
+    optCheck (lookup (k!"capture-accuracy") ps) fun v => needFloat v "capture-accuracy must be numeric"
+    optCheck (lookup (k!"warning-accuracy") ps) fun v => needFloat v "warning-accuracy must be numeric"
   else .ok ()
 
 /-- validation of a select row's parameters (xls2json.py 1103-1150; the itemset they shape is C09's) -/
 def validateSelectParams (ps : Dict) : Except Fail Unit := do
   allowed ps ["randomize", "seed"]
-  match lookup "randomize".toList ps with
+  match lookup (k!"randomize") ps with
   | some v =>
-    if !(v = "true".toList || v = "false".toList) then .error (.err "randomize must be set to true or false")
-    else optCheck (lookup "seed".toList ps) fun s =>
-      if startsWith s "${".toList then .error (.unsup "seed reference") else needFloat s "seed value must be a number"
-  | none => if (lookup "seed".toList ps).isSome then .error (.err "seed without randomize") else .ok ()
+    if !(v = (k!"true") || v = (k!"false")) then .error (.err "randomize must be set to true or false")
+    else optCheck (lookup (k!"seed") ps) fun s =>
+      if startsWith s (k!"${") then .error (.unsup "seed reference") else needFloat s "seed value must be a number"
+  | none => if (lookup (k!"seed") ps).isSome then .error (.err "seed without randomize") else .ok ()
 
 /-- the row's control dict after the parameter block of type `t` (the `.update({...})` calls) -/
 def paramCtl (t : Str) (r : Cells) (ps : Dict) (c : Dict) : Dict :=
-  if t = "text".toList then
-    (match lookup "rows".toList ps with | some v => dset c "rows".toList v | none => c)
-  else if t = "photo".toList then
-    (match lookup "app".toList ps with
-     | some v => if appApplies r then dset c "intent".toList v else c
+  if t = (k!"text") then
+    (match lookup (k!"rows") ps with | some v => dset c (k!"rows") v | none => c)
+  else if t = (k!"photo") then
+    (match lookup (k!"app") ps with
+     | some v => if appApplies r then dset c (k!"intent") v else c
      | none => c)
   else if isGeo t then
-    let c1 := match lookup "capture-accuracy".toList ps with
-      | some v => dset c "accuracyThreshold".toList v | none => c
-    match lookup "warning-accuracy".toList ps with
-    | some v => dset c1 "unacceptableAccuracyThreshold".toList v | none => c1
+    let c1 := match lookup (k!"capture-accuracy") ps with
+      | some v => dset c (k!"accuracyThreshold") v | none => c
+    match lookup (k!"warning-accuracy") ps with
+    | some v => dset c1 (k!"unacceptableAccuracyThreshold") v | none => c1
   else c
 
 def rangeDefaults : Dict :=
-  [("start".toList, "1".toList), ("end".toList, "10".toList), ("step".toList, "1".toList)]
+  [((k!"start"), (k!"1")), ((k!"end"), (k!"10")), ((k!"step"), (k!"1"))]
+
+/-- `if key not in parameters: parameters[key] = defaults[key]` -/
+def fillDefault (acc : Dict) (kv : Str × Str) : Dict :=
+  if (lookup kv.1 acc).isSome then acc else dset acc kv.1 kv.2
 
 /-- `process_range_question_type`: missing `start` / `end` / `step` get their defaults (appended) -/
-def rangeParams (ps : Dict) : Dict :=
-  rangeDefaults.foldl (fun acc kv => if (lookup kv.1 acc).isSome then acc else dset acc kv.1 kv.2) ps
+def rangeParams (ps : Dict) : Dict := rangeDefaults.foldl fillDefault ps
 
 /-- the `control` section of a type-table entry -/
 def typeCtl (e : List (String × String × String)) : Dict :=
@@ -243,28 +252,28 @@ def typeCtl (e : List (String × String × String)) : Dict :=
     `range` the parameters set afterwards -/
 def qAttrs (t : Str) (e : List (String × String × String)) (r : Cells) (ps : Dict) : Dict :=
   let merged := dupdate (typeCtl e) (paramCtl t r ps (rowCtlCells r))
-  let a := merged.filter fun kv => kv.1 ≠ "tag".toList
-  if t = "range".toList then dupdate a (rangeParams ps) else a
+  let a := merged.filter fun kv => kv.1 ≠ (k!"tag")
+  if t = (k!"range") then dupdate a (rangeParams ps) else a
 
 /-- control dict of a `begin group|repeat` row: cells, `jr:count` redirected to the generated node, `intent` -/
 def beginCtl (name : Str) (r : Cells) : Dict :=
   let c0 := rowCtlCells r
-  let c1 := match lookup "jr:count".toList c0 with
+  let c1 := match lookup (k!"jr:count") c0 with
     | some e => if isPyxformRef e then c0
-                else dset c0 "jr:count".toList ("${".toList ++ name ++ "_count}".toList)
+                else dset c0 (k!"jr:count") ((k!"${") ++ name ++ (k!"_count}"))
     | none => c0
   match get r "intent" with
-  | some v => dset c1 "intent".toList v
+  | some v => dset c1 (k!"intent") v
   | none => c1
 
 /-- a body control as observed: element name and attributes other than `ref` / `nodeset` -/
 abbrev Ctl := Str × Dict
 
 /-- values pass through `survey.insert_xpaths`: the identity when there is no `${` -/
-def refFree (d : Dict) : Bool := d.all fun kv => kv.1 = "jr:count".toList || !isInfix "${".toList kv.2
+def refFree (d : Dict) : Bool := d.all fun kv => kv.1 = (k!"jr:count") || !isInfix (k!"${") kv.2
 
 def hasLabel (r : Cells) : Bool :=
-  has r "label" || hasPrefix r "label::" || get r "control::appearance" = some "label".toList
+  has r "label" || hasPrefix r "label::" || get r "control::appearance" = some (k!"label")
 def hasHintCell (r : Cells) : Bool := has r "hint" || hasPrefix r "hint::"
 def hasMedia (r : Cells) : Bool := hasPrefix r "media::"
 
@@ -276,8 +285,8 @@ def guard (b : Bool) (f : Fail) : Except Fail Unit := if b then .ok () else .err
 
 /-- the cells of a row after `disabled` is popped and the type is dealiased, `parameters` taken out -/
 def prep (r0 : Cells) : Cells × Option Str :=
-  let r := r0.filter fun kv => kv.1 ≠ "parameters".toList
-  let r := r.map fun kv => if kv.1 = "type".toList then (kv.1, dealias kv.2) else kv
+  let r := r0.filter fun kv => kv.1 ≠ (k!"parameters")
+  let r := r.map fun kv => if kv.1 = (k!"type") then (kv.1, dealias kv.2) else kv
   (r, get r0 "parameters")
 
 /-- the body controls one survey row emits, in document order -/
@@ -292,7 +301,7 @@ def rowControls (lists : List Str) (n : Nat) (r0 : Cells) : Except Fail (List Ct
     -- `parameters_generic.parse` runs for every row that has a type and is not disabled
     let ps ← (match praw, k with
       | some raw, .skip => if (get r "type").isSome && !(match get r0 "disabled" with | some v => yesNoTrue v | none => false)
-                           then (if (get r "type") = some "audit".toList then .error (.unsup "audit parameters")
+                           then (if (get r "type") = some (k!"audit") then .error (.unsup "audit parameters")
                                  else if !isAscii raw then .error (.unsup "non-ASCII parameters")
                                  else match parseParams raw with | some p => pure p | none => .error (.err "parameters syntax"))
                            else pure []
@@ -305,16 +314,16 @@ def rowControls (lists : List Str) (n : Nat) (r0 : Cells) : Except Fail (List Ct
     match k with
     | .q d other =>
       let t := (get r "type").getD []
-      let oc : List Ctl := match other with | some _ => [("input".toList, [])] | none => []
+      let oc : List Ctl := match other with | some _ => [((k!"input"), [])] | none => []
       match matchSelect t with
       | some (sel, _, _) =>
         validateSelectParams ps
         if d.control then do
           guard (hasLabel r || hasMedia r || hasHintCell r) (.err "no label or hint")
           let a := (rowCtlCells r)
-          guard (refFree a && !(lookup "jr:count".toList a).isSome) (.unsup "reference in attribute")
+          guard (refFree a && !(lookup (k!"jr:count") a).isSome) (.unsup "reference in attribute")
           let e := (typeEntry sel).getD []
-          pure ((d.tag, (dupdate (typeCtl e) a).filter fun kv => kv.1 ≠ "tag".toList) :: oc)
+          pure ((d.tag, (dupdate (typeCtl e) a).filter fun kv => kv.1 ≠ (k!"tag")) :: oc)
         else pure oc
       | none =>
         validateParams t r ps
@@ -322,15 +331,15 @@ def rowControls (lists : List Str) (n : Nat) (r0 : Cells) : Except Fail (List Ct
         if d.control then do
           guard (labelled e r) (.err "no label or hint")
           let a := qAttrs t e r ps
-          guard (refFree a && !(lookup "jr:count".toList a).isSome) (.unsup "reference in attribute")
+          guard (refFree a && !(lookup (k!"jr:count") a).isSome) (.unsup "reference in attribute")
           pure ((d.tag, a) :: oc)
         else pure oc
     | .begin_ ct name _ _ =>
       let c := beginCtl name r
       guard (refFree c) (.unsup "reference in attribute")
       match ct with
-      | .rep => pure [("group".toList, []), ("repeat".toList, c)]
-      | _ => pure [("group".toList, c)]
+      | .rep => pure [((k!"group"), []), ((k!"repeat"), c)]
+      | _ => pure [((k!"group"), c)]
     | _ => pure []
 
 def allControls (lists : List Str) : Nat → List Cells → Except Fail (List Ctl)
@@ -350,7 +359,7 @@ def triggersOk (lists : List Str) (rows : List Cells) : Bool :=
     match get r "trigger" with
     | none => true
     | some t =>
-      isPyxformRef t && !startsWith t "${last-saved#".toList &&
+      isPyxformRef t && !startsWith t (k!"${last-saved#") &&
       (let nm := (t.drop 2).dropLast
        let hits := rows.filter fun x => get x "name" = some nm
        match hits with
@@ -363,28 +372,31 @@ def triggersOk (lists : List Str) (rows : List Cells) : Bool :=
 namespace Spec
 
 /-- parameter ↦ body attribute, per type (documented parameter vocabulary of the XLSForm spec) -/
-def paramAttrTable : List (String × String × String) :=
-  [("text", "rows", "rows"), ("photo", "app", "intent"),
-   ("geopoint", "capture-accuracy", "accuracyThreshold"), ("geopoint", "warning-accuracy", "unacceptableAccuracyThreshold"),
-   ("geoshape", "capture-accuracy", "accuracyThreshold"), ("geoshape", "warning-accuracy", "unacceptableAccuracyThreshold"),
-   ("geotrace", "capture-accuracy", "accuracyThreshold"), ("geotrace", "warning-accuracy", "unacceptableAccuracyThreshold")]
+def paramAttrTable : List (Str × Str × Str) :=
+  [(k!"text", k!"rows", k!"rows"), (k!"photo", k!"app", k!"intent"),
+   (k!"geopoint", k!"capture-accuracy", k!"accuracyThreshold"),
+   (k!"geopoint", k!"warning-accuracy", k!"unacceptableAccuracyThreshold"),
+   (k!"geoshape", k!"capture-accuracy", k!"accuracyThreshold"),
+   (k!"geoshape", k!"warning-accuracy", k!"unacceptableAccuracyThreshold"),
+   (k!"geotrace", k!"capture-accuracy", k!"accuracyThreshold"),
+   (k!"geotrace", k!"warning-accuracy", k!"unacceptableAccuracyThreshold")]
 
 /-- the parameter-derived value of attribute `k` -/
 def paramAttr (t : Str) (r : Cells) (ps : Dict) (k : Str) : Option Str :=
-  if t = "range".toList then
+  if t = (k!"range") then
     (match lookup k ps with | some v => some v | none => lookup k rangeDefaults)
   else
-  match paramAttrTable.find? (fun x => x.1.toList = t && x.2.2.toList = k) with
+  match paramAttrTable.find? (fun x => x.1 = t && x.2.2 = k) with
   | none => none
-  | some (_, p, _) => if t = "photo".toList && !appApplies r then none else lookup p.toList ps
+  | some (_, p, _) => if t = (k!"photo") && !appApplies r then none else lookup p ps
 
 /-- attribute `k` of the body control: parameter-derived value, else the row's `control::k`
     (`appearance`, `body::k`, …) cell, else the type table's entry; `tag` is the element name -/
 def bodyAttr (t : Str) (e : List (String × String × String)) (r : Cells) (ps : Dict) (k : Str) : Option Str :=
-  if k = "tag".toList then none else
   match paramAttr t r ps k with
   | some v => some v
   | none =>
+    if k = (k!"tag") then none else
     match lookup k (rowCtlCells r) with
     | some v => some v
     | none => lookup k (typeCtl e)
@@ -392,7 +404,7 @@ def bodyAttr (t : Str) (e : List (String × String × String)) (r : Cells) (ps :
 /-- the keys that can occur -/
 def candidateKeys (e : List (String × String × String)) (r : Cells) (ps : Dict) : List Str :=
   (typeCtl e).map (·.1) ++ (rowCtlCells r).map (·.1) ++ ps.map (·.1) ++ rangeDefaults.map (·.1) ++
-  paramAttrTable.map (·.2.2.toList)
+  paramAttrTable.map (·.2.2)
 
 def dedup : List Str → List Str
   | [] => []
@@ -404,7 +416,7 @@ def bodyAttrs (t : Str) (e : List (String × String × String)) (r : Cells) (ps 
 
 /-- is the row user-visible?  (`Question.xml_control`; `hint` includes a type-table hint) -/
 def visible (t : Str) (e : List (String × String × String)) (r : Cells) : Bool :=
-  t ≠ "calculate".toList &&
+  !(t = "calculate".toList) &&
   (!(has r "bind::calculate" || has r "trigger") || (hasLabelOrHint r || entryHas e ""))
 
 end Spec
@@ -418,16 +430,16 @@ namespace Spec
 /-- attribute `k` of a group / repeat: the `control::k` cell, except that `intent` comes from the `intent`
     column when filled and `jr:count` is the reference to the count node -/
 def sectionAttr (name : Str) (r : Cells) (k : Str) : Option Str :=
-  if k = "intent".toList then
+  if k = (k!"intent") then
     (match get r "intent" with | some v => some v | none => lookup k (rowCtlCells r))
-  else if k = "jr:count".toList then
+  else if k = (k!"jr:count") then
     (match lookup k (rowCtlCells r) with
-     | some e => if isPyxformRef e then some e else some ("${".toList ++ name ++ "_count}".toList)
+     | some e => if isPyxformRef e then some e else some ((k!"${") ++ name ++ (k!"_count}"))
      | none => none)
   else lookup k (rowCtlCells r)
 
 def sectionAttrs (name : Str) (r : Cells) : Dict :=
-  (dedup ((rowCtlCells r).map (·.1) ++ ["intent".toList])).filterMap fun k =>
+  (dedup ((rowCtlCells r).map (·.1) ++ [(k!"intent")])).filterMap fun k =>
     (sectionAttr name r k).map fun v => (k, v)
 
 /-- the attribute maps the property demands for the controls of one row (document order): nothing for rows
